@@ -96,6 +96,8 @@ RefParse(node, in, p, fe) ==
                              key == KeyOfIn(kid, fe, "parse", in)
                          IN F[i - 1] \o RefParse(kid.node, ChildIn(fe, kid.node, in, key), Append(p, key), ChildFe(fe))
               IN F[Len(node.kids)] \o FailedTests(node, 0, p)
+         \* a front-end document (zjson.Decode) that does not decode, wherever the record sits: one invalid_json issue at the node
+         ELSE IF in.t = "badjson" THEN <<Iss(p, "invalid_json", "struct")>>
          ELSE <<Iss(p, "coerce", "struct")>>
     [] node.k = "slice" ->
          LET src == IF ParseAbsent(in) THEN DefaultList(node).items
@@ -370,6 +372,16 @@ AbsentDPP(node, in, dp, fe) ==
               IF in.t = "list" THEN UNION {AbsentDPP(Elem(node), in.items[i].val, Append(dp, Idx(i - 1)), fe) : i \in DOMAIN in.items} ELSE {}
          [] node.k = "ptr" -> AbsentDPP(Elem(node), in, Append(dp, "*"), fe)
          [] OTHER -> {}
+
+\* ---- destination paths of the primitives that carry a value-rewriting ("mut") PostTransform and exist in d ----
+RECURSIVE MutDP(_, _, _)
+MutDP(node, dp, d) ==
+  CASE node.k = "prim" -> IF (\E i \in DOMAIN node.pts : node.pts[i] = "mut") /\ dp \in DOMAIN d THEN {dp} ELSE {}
+    [] node.k = "struct" -> UNION {MutDP(node.kids[i].node, Append(dp, node.kids[i].key), d) : i \in DOMAIN node.kids}
+    [] node.k = "slice" -> IF dp \in DOMAIN d /\ d[dp] > 0 THEN UNION {MutDP(Elem(node), Append(dp, Idx(i - 1)), d) : i \in 1..d[dp]} ELSE {}
+    [] node.k = "ptr" -> IF dp \in DOMAIN d /\ d[dp] = 1 THEN MutDP(Elem(node), Append(dp, "*"), d) ELSE {}
+    [] node.k = "pre" -> MutDP(Elem(node), dp, d)
+    [] OTHER -> {}
 
 \* ---- C05: destination paths of the catching primitives that exist in a (reference) destination ----
 RECURSIVE CatchDP(_, _, _)
